@@ -319,6 +319,8 @@ RTRLIB_EXPORT int rtr_mgr_init(struct rtr_mgr_config **config_out, struct rtr_mg
 		return RTR_ERROR;
 
 	config->len = groups_len;
+	// the error path below releases config->groups
+	config->groups = NULL;
 
 	if (pthread_rwlock_init(&config->mutex, NULL) != 0) {
 		MGR_DBG1("Mutex initialization failed");
